@@ -142,6 +142,11 @@ impl MinidumpWriter {
     /// Generates a minidump and writes to the destination provided. Returns the in-memory
     /// version of the minidump as well.
     pub fn dump(&mut self, destination: &mut (impl Write + Seek)) -> Result<Vec<u8>> {
+        // Nothing recorded while writing an earlier dump may leak into this one
+        self.memory_blocks.clear();
+        self.principal_mapping = None;
+        self.crashing_thread_context = CrashingThreadContext::None;
+
         let auxv = self
             .direct_auxv_dump_info
             .clone()
